@@ -101,3 +101,41 @@ def stack_site(ev, skip_detail=True):
 
 def mentions(t, pred):
     return any(pred(x) for x in subterms(t))
+
+
+def sequential_view(path):
+    """The same path under single-threaded ('for every input') semantics: repeated reads of a sandbox cell that RLBox itself does not
+    write on this path yield the same value, so every (vrd id lv) becomes (rd lv).  Properties quantified over schedules (C09) must
+    NOT use this view; properties quantified over inputs only (C07, C10) do."""
+    from .engine import PathResult, Ev
+    written = set()
+    for e in path.events:
+        if e.kind == "STORE":
+            written.add(e.a)
+    memo = {}
+
+    def m(t):
+        if not isinstance(t, tuple):
+            if isinstance(t, list):
+                return [m(x) for x in t]
+            return t
+        r = memo.get(t)
+        if r is not None:
+            return r
+        if t[:1] == ("vrd",) and len(t) == 3 and t[2] not in written:
+            r = ("rd", m(t[2]))
+        else:
+            r = tuple(m(x) for x in t)
+        memo[t] = r
+        return r
+
+    evs = []
+    for e in path.events:
+        ex = e.extra
+        if ex:
+            ex = dict(ex)
+            for k in ("ret", "argvals", "target"):
+                if k in ex:
+                    ex[k] = m(ex[k])
+        evs.append(Ev(e.kind, m(e.a) if isinstance(e.a, (tuple, list)) else e.a, m(e.b) if isinstance(e.b, (tuple, list)) else e.b, m(e.c) if isinstance(e.c, (tuple, list)) else e.c, e.loc, e.loop, e.stack, ex))
+    return PathResult(evs, m(path.retval) if isinstance(path.retval, tuple) else path.retval, path.state)
